@@ -1213,6 +1213,10 @@ func (ndb *nodeDB) traverseOrphansWithRootkeyCache(cache *rootkeyCache, prevVers
 				curIter.Next(false)
 			}
 		}
+		if err := curIter.Error(); err != nil {
+			// without the current tree no node may be declared an orphan
+			return err
+		}
 		pNode := prevIter.GetNode()
 
 		if orgNode != nil && bytes.Equal(pNode.hash, orgNode.hash) {
@@ -1227,7 +1231,7 @@ func (ndb *nodeDB) traverseOrphansWithRootkeyCache(cache *rootkeyCache, prevVers
 		}
 	}
 
-	return nil
+	return prevIter.Error()
 }
 
 // Close the nodeDB.
